@@ -14,6 +14,7 @@ NEEDS_MODEL = False
 ASSUMPTIONS = [
     "reference label algebra: + - neg abs round clip shift running-sum slice keep the labels; x*number and x/number keep them; scalar*ndarray appends ' each month'; x/y (same labels) gives 'ratio' (+' each month' for series); "
     "ratio*x and x*ratio carry x's labels (when x is itself a ratio either operand's labels are accepted); a 'per month' value times an ndarray is an 'each month' series; sum/min/max over months drop ' each month'; one month of an 'each month' series (get_month, get_first_month, x[i]) is 'per month'; in_units gives the target labels with the operand's suffix class",
+    "in_units results are also checked by value against an independent multiplier table for the requirements in force; the requirements are re-set in the middle of sequences (probability 0.04 per step)",
     "a monthly quantity is an ndarray and all three labels end in ' each month'; a scalar quantity has no ' each month' label",
     "operations on quantities with different labels must raise AssertionError",
     "each comparison predicate on scalars (a, b) must equal the same predicate on the one-month series ([a], [b]) under all four settings of the fat/protein inclusion flags",
@@ -127,14 +128,44 @@ class Seq:
             if not same(o, s):
                 self.bad("operand_modified", "%s modified an operand (%s -> %s)" % (where, s[3], labels(o)), op=op)
 
+    def check_converted_values(self, op, x, y, frm, tgt):
+        """the numbers of a converted quantity are the numbers its new labels describe, under the requirements in force now"""
+        from props.c10 import ref_mult
+
+        z = self.set
+        refs = ref_mult(z["kd"], z["fd"], z["pd"], z["pop"])
+        for nm, ref, f, t in zip(("kcals", "fat", "protein"), refs, frm, tgt):
+            if f not in ref or t not in ref:
+                return
+            want = np.asarray(getattr(x, nm), float) * ref[t] / ref[f]
+            got = np.asarray(getattr(y, nm), float)
+            self.ops["converted_values_checked"] += 1
+            if want.shape != got.shape or not np.all(np.abs(got - want) <= 1e-11 * np.maximum(np.abs(want), np.abs(got)) + 1e-300):
+                self.bad("converted_numbers_do_not_match_labels", "%s %s: %s %s -> %s gives %s, the requirements in force (kcals %.6g fat %.6g protein %.6g population %.6g) give %s" % (
+                    op, nm, np.ravel(getattr(x, nm))[:2], f, t, np.ravel(got)[:2], z["kd"], z["fd"], z["pd"], z["pop"], np.ravel(want)[:2]), op="in_units", nutrient=nm, settings=dict(z))
+
     def run(self, steps):
         r = self.rnd
         Food = self.Food
         from src.food_system.food import Food as F  # noqa: F401
 
-        Food.conversions.set_nutrition_requirements(r.choice([2100.0, 2345.0]), 47.0, 51.0, r.random() < 0.5, r.random() < 0.5, r.choice([1e6, 3.3e7, 7.8e9]))
+        self.set = {"kd": r.choice([2100.0, 2345.0]), "fd": 47.0, "pd": 51.0, "incf": r.random() < 0.5, "incp": r.random() < 0.5, "pop": r.choice([1e6, 3.3e7, 7.8e9])}
+
+        def apply():
+            z = self.set
+            Food.conversions.set_nutrition_requirements(z["kd"], z["fd"], z["pd"], z["incf"], z["incp"], z["pop"])
+
+        apply()
         pool = [self.new() for _ in range(6)]
         for step in range(steps):
+            if r.random() < 0.04:
+                # the process-wide requirements are re-set in the middle of the sequence (a batch moves on to its next country)
+                for k in r.sample(["kd", "fd", "pd", "pop", "incf", "incp"], r.choice([1, 1, 2])):
+                    self.set[k] = {"kd": lambda: r.choice([2100.0, 2345.0, 1800.0]), "fd": lambda: r.choice([47.0, 61.7, r.uniform(20, 90)]), "pd": lambda: r.choice([51.0, 59.5, r.uniform(20, 90)]),
+                                   "pop": lambda: r.choice([1e6, 3.3e7, 7.8e9, r.uniform(1e5, 1e9)]), "incf": lambda: r.random() < 0.5, "incp": lambda: r.random() < 0.5}[k]()
+                apply()
+                self.ops["resetting"] += 1
+                self.trace.append("resetting")
             op = r.choice(["add", "sub", "mul_num", "mul_arr", "mul_food", "div_num", "div_food", "neg", "getitem_int", "getitem_slice", "get_month", "get_first_month",
                            "sum", "running", "min_all", "max_all", "min_elementwise", "round", "clip", "abs", "shift", "in_units", "mismatch", "new"])
             a = r.choice(pool)
@@ -296,6 +327,7 @@ class Seq:
                     tgt = r.choice(CONVERTIBLE)
                     res = a.in_units(*tgt)
                     self.check_result(op, res, [t + " each month" for t in tgt], True, [a], [sa], "-> %s" % (tgt[0],))
+                    self.check_converted_values(op, a, res, st, tgt)
             except AssertionError as err:
                 self.refused[op] += 1
                 if op in ("add", "sub", "neg", "mul_num", "div_num", "sum", "min_all", "max_all", "running", "get_month", "get_first_month", "round", "clip", "abs", "shift", "getitem_slice", "getitem_int"):
@@ -331,6 +363,7 @@ class Seq:
                         suffix = " each month" if " each month" in labels(res)[0] else (" per month" if " per month" in labels(res)[0] else "")
                         self.ops["in_units_of_derived"] += 1
                         self.check_result("in_units_of_derived(%s)" % op, conv, [t + suffix for t in tgt], is_series(res), [res], [sr])
+                        self.check_converted_values("in_units_of_derived(%s)" % op, res, conv, strip(strip(labels(res)), " per month"), tgt)
                     except AssertionError as err:
                         self.bad("valid_operation_refused", "in_units on the result of %s (labels %s, list %s) refused: %s" % (op, labels(res), list(res.units), str(err)[:60]), op="in_units_of_derived")
                 pool[r.randrange(len(pool))] = res
@@ -407,7 +440,7 @@ def summarize(cases, records, tier):
         "samples": [{"trace_head": r["obs"]["trace_head"]} for r in seqs[:3]] or [{"note": "none"}],
         "operations_by_kind": dict(ops), "refusals_by_kind": dict(ref), "predicate_comparisons": int(comps), "sequences": len(seqs),
     }
-    for need in ("add", "mul_food", "get_month", "in_units", "in_units_of_derived", "mismatch", "getitem_int", "getitem_slice", "sum", "write_to_result:set_to_zero_after_month", "write_to_result:setitem", "write_to_result:constructed"):
+    for need in ("add", "mul_food", "get_month", "in_units", "in_units_of_derived", "mismatch", "getitem_int", "getitem_slice", "sum", "resetting", "converted_values_checked", "write_to_result:set_to_zero_after_month", "write_to_result:setitem", "write_to_result:constructed"):
         if ops.get(need, 0) == 0:
             cov["inconclusive_reason"] = "operation never exercised: " + need
     if comps == 0:
